@@ -258,6 +258,39 @@ pub fn random_tree(rng: &mut Rng, depth: usize, ns: &[String], consts: bool, min
     }
 }
 
+/// wide n-ary nodes over a *small* set of variables (so that every model-based check stays cheap):
+/// arities around the usual block sizes, literals with random polarity, now and then a small nested
+/// node or a constant in the middle, also wrapped in a negation and nested below the other operator
+pub fn wide_exprs(rng: &mut Rng, ns: &[String], consts: bool) -> Vec<E> {
+    let mut out = vec![];
+    for arity in [5usize, 6, 7, 10, 15, 16, 17, 18, 31, 32, 33, 40, 64, 65] {
+        for is_and in [true, false] {
+            let mut ops: Vec<E> = (0..arity)
+                .map(|_| {
+                    let l = lit(rng.pick(ns).as_str());
+                    if rng.below(3) == 0 { not(l) } else { l }
+                })
+                .collect();
+            if rng.below(2) == 0 {
+                let k = rng.below(arity);
+                let inner = vec![lit(rng.pick(ns).as_str()), not(lit(rng.pick(ns).as_str()))];
+                ops[k] = if is_and { or(inner) } else { and(inner) };
+            }
+            if consts && rng.below(4) == 0 {
+                let k = rng.below(arity);
+                ops[k] = cst(is_and);
+            }
+            let node = if is_and { and(ops) } else { or(ops) };
+            out.push(match rng.below(4) {
+                0 => not(node),
+                1 => if is_and { or(vec![node, lit(rng.pick(ns).as_str())]) } else { and(vec![node, lit(rng.pick(ns).as_str())]) },
+                _ => node,
+            });
+        }
+    }
+    out
+}
+
 pub fn random_bits(rng: &mut Rng, n: usize) -> Vec<bool> {
     (0..(1usize << n)).map(|_| rng.coin()).collect()
 }
@@ -335,6 +368,9 @@ pub fn gen_c01(cx: &mut Ctx) {
         let nt = !is_constant(&bits) && essential_count(&bits, ns.len()) >= 2;
         conv_chain(cx, "C01", &Val::E(e), 2, nt);
     }
+    for e in wide_exprs(&mut cx.rng, &names(&["a", "b", "c", "x_10"]), true) {
+        conv_chain(cx, "C01", &Val::E(e), 2, true);
+    }
     let pool = pool_names();
     let n_random = cx.scale * if cx.thorough { 20000 } else { 1500 };
     for _ in 0..n_random {
@@ -376,6 +412,16 @@ pub fn gen_c01(cx: &mut Ctx) {
 pub fn gen_c02(cx: &mut Ctx) {
     let universe = names(&["a", "b", "c", "zz"]);
     let assignments = partial_assignments(&universe);
+    for e in wide_exprs(&mut cx.rng, &names(&["a", "b", "c"]), true) {
+        for x in reps_of(&e) {
+            for _ in 0..4 {
+                let v = cx.rng.pick(&assignments).clone();
+                let d = cx.rng.coin();
+                cx.emit("C02", "eval", &[Arg::F(x.clone()), Arg::V(v.clone()), Arg::O(d)], true);
+                cx.emit("C02", "evalc", &[Arg::F(x.clone()), Arg::V(v)], true);
+            }
+        }
+    }
     let leaves = vec![lit("a"), lit("b"), lit("c"), cst(true), cst(false)];
     let trees = trees_up_to(if cx.thorough { 4 } else { 3 }, &leaves, 3, 0);
     for e in trees {
@@ -706,7 +752,16 @@ fn random_unary(cx: &mut Ctx, prop: &str) {
 
 fn gen_quant(cx: &mut Ctx, prop: &str, ops: &[&str]) {
     let universe = if cx.thorough { names(&["a", "b", "c", "d", "zz"]) } else { names(&["a", "b", "c", "zz"]) };
-    let sets = subsets(&universe);
+    let mut sets = subsets(&universe);
+    // foreign names that fall into one gap of the sorted inputs: before everything (`0`, `1`), between
+    // `a` and `b` (`a0`, `a1`), after everything (`zy`, `zz`), together with inputs
+    for extra in [vec!["0", "1"], vec!["a0", "a1"], vec!["zy", "zz"], vec!["0", "a0", "a1"]] {
+        for base in [vec![], vec!["a"], vec!["b"], vec!["a", "b"], vec!["c"], vec!["b", "c"]] {
+            let mut v: Vec<String> = base.iter().chain(extra.iter()).map(|x| x.to_string()).collect();
+            v.sort();
+            sets.push(v);
+        }
+    }
     for ns in small_name_sets(cx.thorough) {
         for bits in all_functions(ns.len()) {
             if ns.len() >= 4 && cx.rng.below(16) != 0 {
@@ -759,9 +814,9 @@ pub fn gen_c08(cx: &mut Ctx) {
         }
     }
     let fsets = if cx.thorough {
-        vec![names(&[]), names(&["a"]), names(&["a", "b"]), names(&["a", "b", "c"])]
+        vec![names(&[]), names(&["a"]), names(&["a", "b"]), names(&["a", "b", "c"]), names(&["b"]), names(&["z"]), names(&["b", "z"]), names(&["b", "c"])]
     } else {
-        vec![names(&[]), names(&["a"]), names(&["a", "b"])]
+        vec![names(&[]), names(&["a"]), names(&["a", "b"]), names(&["b"]), names(&["z"]), names(&["b", "z"])]
     };
     let mut maps: Vec<Vec<(String, usize)>> = vec![];
     for k in &key_pool {
@@ -975,6 +1030,9 @@ fn emit_nf(cx: &mut Ctx, e: &E) {
 pub fn gen_c11(cx: &mut Ctx) {
     let leaves = vec![lit("a"), lit("b"), lit("c"), cst(true)];
     for e in trees_up_to(if cx.thorough { 5 } else { 4 }, &leaves, 3, 0) {
+        emit_nf(cx, &e);
+    }
+    for e in wide_exprs(&mut cx.rng, &names(&["a", "b", "c"]), false) {
         emit_nf(cx, &e);
     }
     let ns = names(&["a", "b", "c", "x_10"]);
